@@ -345,6 +345,7 @@ func (child *partitionConsumer) dispatcher() {
 		case <-child.dying:
 			close(child.trigger)
 		case <-time.After(child.computeBackoff()):
+			verifGate("pc.redispatch", child.topic, child.partition)
 			if child.broker != nil {
 				child.consumer.unrefBrokerConsumer(child.broker)
 				child.broker = nil
